@@ -217,6 +217,11 @@ def loop_write_set(ex: Executor, stmts, fr: Frame, depth=0, seen=None) -> set:
                         # could also be a repo method of that name; checked below
                         pass
                     cands = _method_candidates(ex, a, n, fr)
+                    rv = n.func.value
+                    if isinstance(rv, ast.Name) and (a in LIST_MUT or a in DICT_MUT or a in PURE_METHODS):
+                        loc = fr.lookup(rv.id)
+                        if loc is not None and loc.ty is not None and loc.ty.name in ("list", "dict", "set"):
+                            cands = []      # receiver is a local builtin container: not a repo method of the same name
                     for fi in cands:
                         out |= _callee_writes(ex, fi, fr, depth, seen)
                     if not cands and a not in LIST_MUT and a not in DICT_MUT and a not in PURE_METHODS:
